@@ -31,7 +31,8 @@ def required(tier):
     return [f"op:{o}" for o in OPS] + ["pos:first", "pos:middle", "pos:last", "zero_last:no_governed_events",
                                         "zero_last:governed_events", "single_tempo_map", "negative_tick_query_raises", "negative_tick_rate_bound_raises",
                                         "ctor:BPMEvents:resolution<=0", "ctor:BPMEvents:empty", "ctor:BPMEvents:first_tick!=0:1", "ctor:BPMEvents:first_tick!=0:2",
-                                        "ctor:BPMEvents:first_tick!=0:many", "ctor:SyncTrack:no_signature", "ctor:SyncTrack:first_signature!=0", "contract_evaluated"]
+                                        "ctor:BPMEvents:first_tick!=0:many", "ctor:SyncTrack:no_signature", "ctor:SyncTrack:first_signature!=0", "contract_evaluated",
+                                        "zero_last:only_a_held_note_end_governed"]
 
 
 def shards(tier, seed):
@@ -91,6 +92,15 @@ def faults(case):
             yield op, pos(k, n), k, rebuild(case, zl), T[k][0]
     yield "res_0", "first", 0, rebuild(case, res_line="  Resolution = 0"), None
     yield "res_00", "first", 0, rebuild(case, res_line="  Resolution = 00"), None
+
+
+def _held(open_=None, lanes=None, forced=False, tap=False):
+    return lambda L: {"open": (L if open_ else None), "lanes": {k: (L if v else 0) for k, v in (lanes or {}).items()}, "forced": forced, "tap": tap}
+
+
+HELD_SHAPES = [_held(open_=True, forced=True), _held(lanes={"0": 0, "3": 1}), _held(open_=True, tap=True), _held(lanes={"2": 1}, tap=True),
+               _held(open_=True), _held(lanes={"1": 1, "4": 1}, forced=True), _held(lanes={"0": 1, "1": 0, "2": 0, "3": 0, "4": 0}),
+               _held(lanes={"4": 1, "0": 0}, forced=True, tap=True)]
 
 
 def written_event_ticks(truth) -> list:
@@ -313,6 +323,24 @@ def run_shard(shard, rec, tier, seed):
             lines = sync_lines(case["truth"]) + [f"  {cut} = B 0"]
             judge_fault(rec, "zero_B", "last", len(T), rebuild(case, lines), cut, case["truth"])
             rec.cls("zero_last:only_notes_governed")
+        # trailing zero tempo placed so that ONLY THE END of one held note lies under it (the note starts before it); the held note
+        # rotates through the shapes a section can write: open / chord with unequal lanes / single lane, plain, forced or tap
+        key = next(iter(case["truth"]["tracks"]), None)
+        if key is not None:
+            import copy
+
+            t0 = max(written_event_ticks(case["truth"]) + [t for t, _ in T]) + 5
+            L = rng.choice([1, 2, 50, 4 * case["truth"]["resolution"]])
+            g = dict(HELD_SHAPES[i % len(HELD_SHAPES)](L), tick=t0)
+            if not case["truth"]["tracks"][key]["groups"] and g["forced"]:
+                g["forced"], g["tap"] = False, True  # (the first note of a track cannot be forced)
+            truth2 = copy.deepcopy(case["truth"])
+            truth2["tracks"][key]["groups"].append(g)
+            hdr = model.header(*key.split("/"))
+            secs = [[n, (list(b) + gen.group_lines(None, g)) if n == hdr else b] for n, b in case["sections"]]
+            z = t0 + rng.randint(1, L)
+            judge_fault(rec, "zero_B", "last", len(T), rebuild({"sections": secs}, sync_lines(case["truth"]) + [f"  {z} = B 0"]), z, truth2)
+            rec.cls("zero_last:only_a_held_note_end_governed")
         if i < 1:
             rec.sample({"tempo_events": len(T), "operators": OPS, "sync_head": sync_lines(case["truth"])[:6]})
         if rec.full:
